@@ -165,7 +165,7 @@ func firstDiff(a, b lintCmp) (what string, class string) {
 
 func (c02) Eval(c *Chooser, env *Env) *Outcome {
 	o := &Outcome{}
-	opts := GenOpts{Ties: true, Corpus: true, Projects: true, Defective: true, Loose: true, SelfArg: true, MaxRepos: 2, MaxFiles: 3}
+	opts := GenOpts{Ties: true, GenIface: true, Corpus: true, Projects: true, Defective: true, Loose: true, SelfArg: true, MaxRepos: 2, MaxFiles: 3}
 	switch env.Variant {
 	case "single":
 		opts.MaxRepos, opts.MaxFiles = 1, 1
@@ -175,6 +175,10 @@ func (c02) Eval(c *Chooser, env *Env) *Outcome {
 		mw.Files, mw.AbsArgs = mw.Files[:1], mw.AbsArgs[:1]
 	}
 	w := mw.World
+	if env.Variant != "single" && c.Weighted("world.viarepo", 1, 6) {
+		// no arguments: the files are found by walking .github/workflows of the repository of the cwd
+		w.API, w.Files, w.Cwd = APIRepo, []string{""}, mw.Repos[0].Root
+	}
 	// output mode
 	switch c.Int("world.outmode", 4) {
 	case 1:
